@@ -117,6 +117,13 @@ class Var(gpytorch.models.ApproximateGP):
             strat = V.BatchDecoupledVariationalStrategy(self, Z, vd, learn_inducing_locations=True)
         elif strat_name == "ciq":
             strat = V.CiqVariationalStrategy(self, Z, vd, learn_inducing_locations=True)
+        elif strat_name == "vnn":
+            # VNNGP: the inducing points ARE the training inputs; the model the state is loaded into was built with placeholder points of the
+            # same shape (the usual way to rebuild a variational model before load_state_dict)
+            Xtr = data(seed)[0]
+            Z = Xtr.clone() if v == 0 else util.rand(g, n, d)
+            vd = dist_cls(n, mean_init_std=1e-3 * (1 + v))
+            strat = V.NNVariationalStrategy(self, Z, vd, k=2, training_batch_size=n)
         elif strat_name == "grid":
             vd = dist_cls(16)
             strat = V.GridInterpolationVariationalStrategy(self, grid_size=4, grid_bounds=[(-0.5, 1.5)] * d, variational_distribution=vd)
@@ -140,7 +147,7 @@ EXACT_SPECS = [(k, "gaussian") for k in kernel_catalogue(0, 0)] + [("rbf_interva
                                                                    ("mt", "multitask"), ("mt_lkj", "multitask"), ("rff_lazy", "gaussian"), ("sgpr", "gaussian"), ("gridk", "gaussian"),
                                                                    ("rbf_interval_gamma", "gaussian_noiseprior"), ("lcm", "multitask")]
 VAR_SPECS = [("vs", "chol"), ("vs", "mf"), ("vs", "delta"), ("vs", "nat"), ("vs", "trilnat"), ("uvs", "chol"), ("bdvs", "chol"), ("bdvs", "mf"),
-             ("grid", "chol"), ("orth", "delta"), ("ciq", "nat"), ("vs_fixedz", "chol"), ("uvs_fixedz", "chol")]
+             ("grid", "chol"), ("orth", "delta"), ("ciq", "nat"), ("vs_fixedz", "chol"), ("uvs_fixedz", "chol"), ("vnn", "mf")]
 
 
 def make(spec, v, seed):
@@ -362,6 +369,11 @@ def run_cell(cell, seed):
             model.eval()
             with torch.no_grad():
                 model(Xs)  # initialise the variational parameters
+            if spec[1] == "vnn":  # the nearest-neighbour strategy initialises them at its first TRAINING-mode call
+                model.train()
+                with torch.no_grad():
+                    model(X)
+                model.eval()
         perturb(model, seed)
         for mod in model.modules():
             if hasattr(mod, "_clear_cache"):
